@@ -16,7 +16,8 @@ def ens():
 
 
 def summarize(ms):
-    return [(m.n_atoms, getattr(m, "n_bonds", 0), [int(a.element) for a in m.atoms], np.round(m.coords, 5).tolist()) for m in ms]
+    return [(m.n_atoms, getattr(m, "n_bonds", 0), [int(a.element) for a in m.atoms], np.round(m.coords, 5).tolist(),
+             [(m.get_atom_index(b.a1), m.get_atom_index(b.a2), int(b.btype)) for b in getattr(m, "bonds", [])]) for m in ms]
 
 
 def is_num(t):
@@ -68,6 +69,25 @@ def _to(*a):
 
 
 signal.signal(signal.SIGALRM, _to)
+if w.get("op") == "attr-truncation":
+    t = ("@<TRIPOS>MOLECULE\nattrmol\n2 1 0 0 0\nSMALL\nNO_CHARGES\n\n@<TRIPOS>ATOM\n1 C1 0.0 0.0 0.0 C.3 1 UNL 0.0\n2 O1 1.2 0.0 0.0 O.3 1 UNL 0.0\n"
+         "@<TRIPOS>UNITY_ATOM_ATTR\n1 1\ncharge 0\n2 2\ncharge -1\nnote x\n@<TRIPOS>BOND\n1 1 2 1\n@<TRIPOS>UNITY_BOND_ATTR\n1 1\norder 1\n")
+    ls = t.splitlines(keepends=True)
+    for k in range(len(ls) + 1):
+        signal.alarm(5)
+        try:
+            r = ml.Molecule.loads_all_mol2("".join(ls[:k]))
+            signal.alarm(0)
+            if any(m.n_atoms != 2 or m.n_bonds != 1 for m in r):
+                print(f"REPRODUCED: text with attribute records cut after line {k} returned a partial molecule")
+                sys.exit(0)
+        except TimeoutError:
+            print(f"REPRODUCED: the mol2 reader does not terminate on a text with attribute records cut after line {k}")
+            sys.exit(0)
+        except BaseException:
+            signal.alarm(0)
+    print("not reproduced")
+    sys.exit(1)
 e = ens()
 bad = []
 for fmt in ([w.get("format")] if w.get("format") else ["mol2", "xyz"]):
@@ -76,7 +96,7 @@ for fmt in ([w.get("format")] if w.get("format") else ["mol2", "xyz"]):
     n = len(text.splitlines())
     per = n // e.n_conformers
     if w.get("kind") == "token":
-        fam = [(("token", j, new), k) for k in range(0, min(n, per)) for j in range(0, 10) for new in ("Xq", "7", "-1.5e", "??", "Q7")]
+        fam = [(("token", j, new), k) for k in range(0, min(n, per)) for j in range(0, 10) for new in ("Xq", "7", "-1.5e", "??", "Q7", "a", "1x")]
     elif search or w.get("kind") is None:
         fam = [(kd, k) for kd in ("truncate", "delete", "duplicate") for k in range(0, min(n, 3 * per))]
     else:
